@@ -153,7 +153,9 @@ def main(argv: list[str] | None = None) -> int:
             continue
         for k, v in r.get("counters", {}).items():
             counters[k] += v
-        if r.get("nontrivial"):
+        if r.get("sigs") is not None:
+            sigs_nontrivial.update(r["sigs"])
+        elif r.get("nontrivial"):
             sigs_nontrivial.add(r["sig"])
         for v in r.get("violations", []):
             if v.get("mechanism") in known_open:
